@@ -5,10 +5,10 @@
                               then text / use / children
      parse_svg_element        node-count check `nodes.len() > NODES_LIMIT => Err`, append
      parse_svg_use_element    resolve_href through the id map (first occurrence of an id wins),
-                              guards `link == node || link == origin`, the "is an SVG element" test,
+                              guards `link == node || origin.contains(link)` (origin = in-progress list), the "is an SVG element" test,
                               the scan of the strict descendants of the link for `use` elements
                               that point back to the `use` or to the link, then
-                              parse_xml_node(link, origin := this use, ignore_ids := true, depth + USE_DEPTH_STEP)
+                              parse_xml_node(link, origin ++ ancestors(use) ++ [link], ignore_ids := true, depth + USE_DEPTH_STEP)
    XML is abstracted to what these functions look at: a node identity (`uid`, roxmltree's node
    equality), the tag class, the `id` attribute, link-valued attributes, children.
    Executable Gallina only; DEPTH_LIMIT / NODES_LIMIT come from Gen/Consts.v (regenerated from
@@ -83,9 +83,29 @@ Definition is_svg_tag (t : tagk) : bool := negb (tag_eqb t TNonSvg).
 
 (* the three reasons for which parse_svg_use_element refuses to expand (besides a missing link) *)
 (* each guard is applied only if tools/gen_links.py found it in parse_svg_use_element (Gen/LinkGuards.v) *)
-Definition use_self_or_origin (node : xnode) (origin : option nat) (link : xnode) : bool :=
+(* `origin`: node ids of the `use` elements that are being resolved, of their ancestors and of their targets *)
+Definition mem_uid (u : nat) (l : list nat) : bool := existsb (Nat.eqb u) l.
+Definition use_self_or_origin (node : xnode) (origin : list nat) (link : xnode) : bool :=
   (G_USE_SELF && Nat.eqb (xuid link) (xuid node)) ||
-  (G_USE_ORIGIN && match origin with Some o => Nat.eqb (xuid link) o | None => false end).
+  (G_USE_ORIGIN && mem_uid (xuid link) origin).
+
+(* node.ancestors(): the node and its ancestors, found by identity *)
+Fixpoint xpath (target : nat) (x : xnode) : option (list nat) :=
+  match x with
+  | XN u _ _ _ _ ks =>
+      if Nat.eqb u target then Some [u]
+      else match (fix go (l : list xnode) : option (list nat) :=
+                    match l with
+                    | [] => None
+                    | k :: r => match xpath target k with Some p => Some p | None => go r end
+                    end) ks with
+           | Some p => Some (u :: p)
+           | None => None
+           end
+  end.
+Definition xancestors (doc : xnode) (u : nat) : list nat := match xpath u doc with Some p => p | None => [] end.
+Definition origin_push (doc node link : xnode) (origin : list nat) : list nat :=
+  if G_USE_PUSH then xuid link :: xancestors doc (xuid node) ++ origin else origin.
 Definition use_scan_recursive (doc node link : xnode) : bool :=
   existsb (fun c => tag_eqb (xtag c) TUse &&
                     match resolve_href doc c with
@@ -93,7 +113,7 @@ Definition use_scan_recursive (doc node link : xnode) : bool :=
                                  (G_USE_SCAN_LINK && Nat.eqb (xuid l2) (xuid link))
                     | None => false
                     end) (tl (xflat link)).
-Definition use_skipped (doc node : xnode) (origin : option nat) (link : xnode) : bool :=
+Definition use_skipped (doc node : xnode) (origin : list nat) (link : xnode) : bool :=
   use_self_or_origin node origin link || (G_USE_SVG_ONLY && negb (is_svg_tag (xtag link))) ||
   use_scan_recursive doc node link.
 
@@ -164,7 +184,7 @@ Fixpoint btext (fuel : nat) (x : xnode) (depth : Z) (st : bstate) {struct fuel} 
                end) (xkids x) st
   end.
 
-Fixpoint bnode (fuel : nat) (doc x : xnode) (origin : option nat) (ignore_ids : bool) (depth : Z) (st : bstate)
+Fixpoint bnode (fuel : nat) (doc x : xnode) (origin : list nat) (ignore_ids : bool) (depth : Z) (st : bstate)
   {struct fuel} : bstate * outcome (list snode) :=
   let st := note_depth st depth in
   if G_DEPTH_FIRST && (depth >? depth_limit) then (st, OErr EDepth) else
@@ -191,7 +211,7 @@ Fixpoint bnode (fuel : nat) (doc x : xnode) (origin : option nat) (ignore_ids : 
               | None => (st1, OOk [mk []])
               | Some link =>
                   if use_skipped doc x origin link then (st1, OOk [mk []])
-                  else match bnode f doc link (Some (xuid x)) true (depth + USE_DEPTH_STEP) st1 with
+                  else match bnode f doc link (origin_push doc x link origin) true (depth + USE_DEPTH_STEP) st1 with
                        | (st2, OOk ks) => (st2, OOk [mk ks])
                        | (st2, e) => (st2, e)
                        end
@@ -205,50 +225,22 @@ Fixpoint bnode (fuel : nat) (doc x : xnode) (origin : option nat) (ignore_ids : 
       end
   end.
 
-(* parse(): the Root node is nodes[0]; the document element is parsed at depth 0 with origin = the
-   XML document node (which no href can name). *)
+(* parse(): the Root node is nodes[0]; the document element is parsed at depth 0 with an empty in-progress list. *)
 Definition build_with (fuel : nat) (doc : xnode) : bstate * outcome snode :=
-  match bnode fuel doc doc None false 0 bstate0 with
+  match bnode fuel doc doc [] false 0 bstate0 with
   | (st, OOk ks) => (st, OOk (SN 0 TOther None false [] ks))
   | (st, OErr k) => (st, OErr k)
   | (st, OOut) => (st, OOut)
   end.
 End Limits.
 
-(* ---- KnownClass for C03: the guarded use expansion re-enters a (target, origin) pair that is already
-   being expanded, i.e. it would go on forever.  Same recursion as bnode, without the limits; running out
-   of fuel counts as a loop. ---- *)
-Definition state_eqb (a b : nat * option nat) : bool :=
-  Nat.eqb (fst a) (fst b) &&
-  match snd a, snd b with Some x, Some y => Nat.eqb x y | None, None => true | _, _ => false end.
-
-Fixpoint utext (fuel : nat) (x : xnode) : bool :=
-  match fuel with
-  | O => true
-  | S f => existsb (fun k => match xtag k with TTspan => utext f k | _ => false end) (xkids x)
-  end.
-
-Fixpoint uloop (fuel : nat) (doc : xnode) (path : list (nat * option nat)) (x : xnode) (origin : option nat) : bool :=
-  match fuel with
-  | O => true
-  | S f =>
-      match xtag x with
-      | TNonSvg | TStyle => false
-      | TText => utext f x
-      | TUse =>
-          match resolve_href doc x with
-          | None => false
-          | Some link =>
-              if use_skipped doc x origin link then false
-              else let s := (xuid link, Some (xuid x)) in
-                   if existsb (state_eqb s) path then true
-                   else uloop f doc (s :: path) link (Some (xuid x))
-          end
-      | _ => existsb (fun k => uloop f doc path k origin) (xkids x)
-      end
-  end.
-Definition loop_fuel (doc : xnode) : nat := let n := S (length (xflat doc)) in n * n * n.
-Definition use_loop (doc : xnode) : bool := uloop (loop_fuel doc) doc [] doc None.
+(* ---- what bounds the use expansion: every expansion puts a new element of the document on `origin` ---- *)
+Fixpoint xheight (x : xnode) : nat :=
+  match x with XN _ _ _ _ _ ks => S (fold_right (fun k m => Nat.max (xheight k) m) O ks) end.
+Definition fresh_count (doc : xnode) (origin : list nat) : nat :=
+  length (filter (fun y => negb (mem_uid (xuid y) origin)) (xflat doc)).
+(* fuel / depth that no document can exhaust, whatever its references look like *)
+Definition expansion_fuel (doc : xnode) : nat := S (length (xflat doc)) * (xheight doc + 2) + xheight doc + 1.
 
 Definition build_fuel : nat := Z.to_nat DEPTH_LIMIT + 2.
 Definition build (doc : xnode) : bstate * outcome snode := build_with DEPTH_LIMIT NODES_LIMIT build_fuel doc.
